@@ -218,6 +218,24 @@ def run(ctx):
                                   (["hash", "transaction", "-"], d.encode(), "0x" + t.signing_hash().hex())):
             runs.append(dict(args=args, stdin=stdin))
             meta.append((d, want))
+    # anything after the one JSON document (file and stdin, sign and hash): not a transaction document
+    trail_runs = []
+    t = txgen.rand_tx(rng, kind=rng.randrange(3), small=True)
+    if t.kind == 0 and t.f.get("chainId") is None:
+        t.f["chainId"] = 1
+    d0 = txgen.render(rng, t)
+    for k, junk in enumerate([" }", "garbage", ",{}", " 0", "\n{}", "]", "\x00", " null", " \"x\""] + [d0]):
+        pth = os.path.join(tmp, "trail%d.json" % k)
+        open(pth, "wb").write((d0 + junk).encode("utf8"))
+        base = ["sign", "--mnemonic", phrase, "transaction"]
+        for args, stdin in ((base + [pth], None), (base + ["-"], (d0 + junk).encode("utf8")), (["hash", "transaction", pth], None), (["hash", "transaction", "-"], (d0 + junk).encode("utf8"))):
+            trail_runs.append(dict(args=args, stdin=stdin, junk=junk))
+    for rn, r in zip(trail_runs, ctx.cli(trail_runs)):
+        ctx.count("cli/trailing-content")
+        ctx.distinct(("trail", tuple(rn["args"][:1]), rn["args"][-1] == "-", rn["junk"]))
+        if r.cls != "error" or r.stdout != b"":
+            ctx.violation("cli-trailing-content-refused", dict(op="hdwallet " + " ".join(short(a, 40) for a in rn["args"] if a != phrase), after_the_document=short(rn["junk"], 40)),
+                          "error, nothing printed", str(r)[:300])
     for rn, (d, want), r in zip(runs, meta, ctx.cli(runs)):
         ctx.count("cli/" + rn["args"][0] + "-transaction")
         ctx.distinct(("cli", tuple(rn["args"][:6]), d))
